@@ -1171,6 +1171,13 @@ EXTRACTORS["C05"] = EXTRACTORS["C05"] + [GEN_SRC["SrcFmAccess"]]
 TRANSLATOR_MODULES.append("rs2lean_gengff")
 GEN_SRC.update({n: gen_src(n) for n in ("SrcBed", "SrcGff")})
 EXTRACTORS["C13"] = EXTRACTORS.get("C13", []) + [GEN_SRC[n] for n in ("SrcBed", "SrcGff")]
+GEN_SRC.update({n: gen_src(n) for n in ("SrcGffRead",)})
+EXTRACTORS["C13"] = EXTRACTORS["C13"] + [GEN_SRC[n] for n in ("SrcGffRead",)]
+# gengff: the exact byte equality of gff::Writer::write including the order of the key groups is soft (a writer that sorts the keys,
+# seeded C13-H1, satisfies the hard ∃-permutation theorem gff_write_source_eq_model only)
+SOFT_GFF_EXACT = soft_modules(["RbV.Thm.GenSrcGffExact"], "gff::Writer::write no longer emits the attribute key groups in the iteration order "
+                              "of the MultiMap (the bytes up to a permutation of the groups are checked separately: gff_write_source_eq_model)")
+EXTRACTORS["C13"] = EXTRACTORS["C13"] + [SOFT_GFF_EXACT]
 
 
 def main():
